@@ -356,8 +356,14 @@ retry:
 
 	switch resp.StatusCode {
 	case http.StatusOK:
-		probing = false
-		return cb(resp.Body)
+		err = cb(resp.Body)
+		if err == nil {
+			// Keep using the location that served the resource. If what a probed
+			// legacy location served is rejected (it may be any web server's
+			// answer for an unknown path), then go back to the IPNI path.
+			probing = false
+		}
+		return err
 	case http.StatusNotFound:
 		_, _ = io.Copy(io.Discard, resp.Body)
 		if s.plainHTTP && !s.noPath {
